@@ -206,6 +206,8 @@ type event struct {
 	Cb     string            `json:"cb,omitempty"`  // k == "enter": which session-changing callback is being held (coa | disc | policy | term)
 	Seq    int               `json:"seq,omitempty"` // k == "enter": handle for releasing it
 	Tab    map[string][2]int `json:"tab,omitempty"` // reply to T: session (hex) -> {policy changes, terminations} applied so far
+	Ret    []retRep          `json:"ret,omitempty"` // reply to V: every retained request object compared with its deep copy (retain_test.go)
+	App    []appRep          `json:"app,omitempty"` // reply to A: deferred applications of retained requests through the real CoAProcessor
 }
 
 type evAttr struct {
